@@ -228,7 +228,7 @@ Section RoundProofs.
     Qed.
 
     Theorem round_converges :
-      consistent last (view st) remote -> hash_sound (view st) remote ->
+      consistent last (repl st) remote -> hash_sound (repl st) remote ->
       forall kb, In kb (content (repl result)) <-> In kb (content (repl remote)).
     Proof.
       intros Hcons Hsound [k b]. unfold content. rewrite !in_map_iff. split.
@@ -252,7 +252,8 @@ Section RoundProofs.
           unfold WalkProofs.upd_needed in Hupd.
           rewrite Hyid, (findk_in keqb keqb_spec _ z Hview Hzv) in Hupd.
           apply filter_In in Hy as [Hyr Hly].
-          apply filter_In in Hzv as [Hzv _].
+          assert (Hzr : In z (repl st)) by (apply in_repl; auto).
+          clear Hzv. rename Hzr into Hzv.
           assert (Hbody : it_body z = it_body y).
           { apply need_update_false in Hupd as [Hm|Hs].
             - apply (Hcons z y Hzv Hyr (eq_sym Hyid) Hm).
@@ -279,7 +280,8 @@ Section RoundProofs.
           destruct (findk (it_id y) (filter live (view st))) as [x|] eqn:Hf; [|discriminate].
           apply (findk_some keqb keqb_spec) in Hf as [Hxv Hxid].
           pose proof Hxv as Hxv'. apply in_live_view in Hxv' as [Hxst [Hlx Hgx]].
-          assert (Hxview : In x (view st)) by (apply filter_In in Hxv as [Hxv _]; exact Hxv).
+          assert (Hxview : In x (repl st)).
+          { apply in_repl. repeat split; [exact Hxst|exact Hlx|rewrite Hxid; exact Hay|exact Hgx]. }
           assert (Hbody : it_body x = it_body y).
           { apply need_update_false in Hupd as [Hm|Hs].
             - apply (Hcons x y Hxview Hyr Hxid Hm).
@@ -315,7 +317,7 @@ Section RoundProofs.
 
   Theorem round_permutation stamp last remote st :
     NoDup (ids (filter live st)) -> NoDup (ids (filter live remote)) -> all_global remote ->
-    consistent last (view st) remote -> hash_sound (view st) remote ->
+    consistent last (repl st) remote -> hash_sound (repl st) remote ->
     Permutation (content (repl (apply_round stamp (diff last (view st) remote) st)))
                 (content (repl remote)).
   Proof.
@@ -444,7 +446,7 @@ Section RoundProofs.
   Theorem idempotent last remote st :
     NoDup (ids (filter live st)) -> NoDup (ids (filter live remote)) -> all_global remote ->
     (forall kb, In kb (content (repl st)) <-> In kb (content (repl remote))) ->
-    hash_complete last (view st) remote ->
+    hash_complete last (repl st) remote ->
     issued (d_del (diff last (view st) remote)) = [] /\ issued (d_ups (diff last (view st) remote)) = [].
   Proof.
     intros Hst Hrem Hglob Heq Hcomp.
@@ -470,7 +472,8 @@ Section RoundProofs.
       assert (Hxv : In x (filter live (view st))) by (apply in_live_view; auto).
       unfold WalkProofs.upd_needed in Hupd.
       rewrite <- Hid, (findk_in keqb keqb_spec _ x Hview Hxv) in Hupd.
-      apply filter_In in Hxv as [Hxv _].
-      rewrite (Hcomp x y Hxv Hyr Hid Hb) in Hupd. discriminate.
+      assert (Hxr : In x (repl st)).
+      { apply in_repl. repeat split; [exact Hxst|exact Hlx|rewrite Hid; exact Ha|exact Hgx]. }
+      rewrite (Hcomp x y Hxr Hyr Hid Hb) in Hupd. discriminate.
   Qed.
 End RoundProofs.
